@@ -6,7 +6,7 @@ p=$(realpath "$1"); shift
 HERE=$(dirname "$(dirname "$(realpath "$0")")")
 SV=${SV:-/tmp/sv}
 [ -d $SV ] || git -C /repo worktree add -q $SV HEAD
-cd $SV && git checkout -q --detach $(git -C /repo rev-parse HEAD) && git checkout -- . || exit 2
+cd $SV && git checkout -q --detach $(git -C /repo rev-parse HEAD) && git checkout -- . && git clean -fdq src || exit 2
 git apply "$p" || { echo "patch does not apply"; exit 2; }
 cd "$HERE"
 [ $# -eq 0 ] && set -- C01 C02 C03 C04 C05 C06 C07 C08 C09 C10 C11 C12 C13 C14 C15 C16 C17 C18 C19
@@ -16,5 +16,5 @@ for c in "$@"; do
   rc=$?
   if [ $rc -ne 0 ]; then fl="$fl $c"; echo "ALARM $c rc=$rc"; grep -E "^  rule|Error" ${SV}_tv_out.txt | head -${SHOW:-6} | cut -c1-${W:-400}; fi
 done
-cd $SV && git checkout -- .
+cd $SV && git checkout -- . && git clean -fdq src
 echo "FLAGGED:${fl:- (none)}"
